@@ -2,6 +2,7 @@ package keysim
 
 import (
 	"bytes"
+	"crypto/rand"
 	"crypto/sha256"
 	"encoding/binary"
 	"encoding/hex"
@@ -278,9 +279,32 @@ func RunXMSS(ep *Episode) *Result {
 	res.Probes.Add(fmt.Sprintf("cell:h=%d,hash=%d,stub=%v", ep.Height, ep.Hash, ep.Stub), 1)
 
 	var oc outcome
-	x.live, oc = build(seed, ep.Height, x.hashFn)
-	if oc.panicked {
-		x.violate("C01", "construct-failed", x.cfgSig(), "NewXMSSFromSeed panicked: "+oc.pval)
+	switch ep.Ctor {
+	case "", "seed":
+		x.live, oc = build(seed, ep.Height, x.hashFn)
+	case "ext":
+		var e [common.ExtendedSeedSize]uint8
+		oc = guard(func() {
+			d := xmss.NewQRLDescriptor(ep.Height, x.hashFn, common.XMSSSig, common.SHA256_2X).GetBytes()
+			copy(e[:3], d[:])
+			copy(e[3:], seed[:])
+			x.live = xmss.NewXMSSFromExtendedSeed(e)
+		})
+	case "height":
+		// the entropy stream is the episode's seed bytes: the key must come out
+		// as if built from that seed
+		plan := &EntropyPlan{ErrAfter: -1}
+		ent := &simEntropy{plan: plan, want: 48, fixed: seed[:]}
+		saved := rand.Reader
+		rand.Reader = ent
+		oc = guard(func() { x.live = xmss.NewXMSSFromHeight(ep.Height, x.hashFn) })
+		rand.Reader = saved
+	default:
+		panic("unknown constructor " + ep.Ctor)
+	}
+	res.Probes.Add("ctor:"+map[string]string{"": "seed"}[ep.Ctor]+ep.Ctor, 1)
+	if oc.panicked || x.live == nil {
+		x.violate("C01", "construct-failed", x.cfgSig()+",ctor="+ep.Ctor, "constructor panicked: "+oc.pval)
 		return res
 	}
 	if ep.Twin != "none" {
@@ -307,8 +331,15 @@ func RunXMSS(ep *Episode) *Result {
 		x.violate("C02", "index-mismatch", "fresh", fmt.Sprintf("fresh key GetIndex=%d", g))
 	}
 	if x.twin != nil {
+		// same (seed, height, hash) through two constructors, or twice through
+		// one: the keys must be the same key
+		if to, toc := observe(x.twin, true); !toc.panicked {
+			if d := x.base.diff(&to, true); d != "" {
+				x.violate("C09", "constructors-disagree", x.cfgSig()+",ctor="+ep.Ctor+","+d, "the key built by constructor '"+ep.Ctor+"' and the key built by NewXMSSFromSeed from the same seed differ in "+d)
+			}
+		}
 		if d := liveSnapshotDiff(snap(x.live), snap(x.twin)); d != "" {
-			x.violate("C08", "nondeterministic-keygen", d, "two keys built from the same seed differ in "+d)
+			x.pendSnap = append(x.pendSnap, "construction: "+d)
 		}
 	}
 
